@@ -7,8 +7,10 @@ Sender side: `SendBuffer` with the multiset `F` of frames in flight and the ghos
 bytes; runs = all lists of calls in which a frame is acknowledged / declared lost only while in flight.
 Receiver side: `Assembler` under the hypothesis that every inserted frame carries the bytes of the
 ground stream `g` at its offset; runs = all lists of calls with any allowed choice of chunk boundaries.
-Two statements are false of the code (findings A1, A2, and the unguarded 0-RTT reset): they are kept
-as `…_statement`, refuted by `…_counterexample` and proved in the `…_partial` form.
+The exactly-once theorem needed two repairs of assembler.rs (former findings A1, A2: `defragment` now
+starts at the read index in ordered mode, `insert` ignores empty frames); it now holds in full.
+One statement is false of the code as a component (the unguarded 0-RTT reset): it is kept as
+`…_statement` and refuted by `…_counterexample`; `sbuf_partition` carries the guard.
 -/
 namespace QM.Props.C01
 open QM QM.RangeSet
@@ -133,69 +135,48 @@ theorem asm_no_loss (g : Nat → Nat) (ops : List Op) (s : Sys)
 
 /-- an ordered read after an unordered one is refused and changes nothing -/
 theorem asm_illegal_ordered_after_unordered (s : Sys) (hu : s.a.unordered = true)
-    (max : Nat) (obs : Obs) (c : RS) :
-    (ensureOrdering s.a true).2 = false ∧ step s (.read max true obs c) = some s :=
-  illegal_ordered s hu max obs c
+    (max : Nat) (obs : Obs) :
+    (ensureOrdering s.a true).2 = false ∧ step s (.read max true obs) = some s :=
+  illegal_ordered s hu max obs
 
-/-- exactly once, full statement: no offset is handed to the application twice -/
-def asm_exactly_once_statement : Prop :=
-  ∀ (g : Nat → Nat) (ops : List Op) (s : Sys), (∀ op ∈ ops, op.consistent g) →
-    run Sys.init ops = some s → (delivered s).Pairwise disj
-
-/-- false (finding A1): a chunk lying below the read index survives the switch to unordered mode
-    and is returned again -/
-theorem asm_exactly_once_counterexample : ¬ asm_exactly_once_statement := by
-  intro hst
-  have he := witnessA1_delivered
-  cases hr : run Sys.init witnessA1 with
-  | none => rw [hr] at he; cases he
-  | some s =>
-    rw [hr] at he
-    simp only [Option.map_some, Option.some.injEq] at he
-    have := hst gId witnessA1 s witnessA1_consistent hr
-    rw [he] at this
-    exact not_pairwise_of_overlap (2, 6) (0, 10) [] 2 (by decide) this
-
-/-- false even without any ordered read (finding A2): an empty frame leaves an empty entry in
-    `recvd`, after which `replace` stops reporting duplicates too early -/
-theorem asm_exactly_once_counterexample_empty_frame :
-    ¬ (∀ (g : Nat → Nat) (ops : List Op) (s : Sys), (∀ op ∈ ops, op.consistent g) →
-        (∀ op ∈ ops, ∀ m o c, op ≠ .read m true o c) →
-        run Sys.init ops = some s → (delivered s).Pairwise disj) := by
-  intro hst
-  have he := witnessA2_delivered
-  cases hr : run Sys.init witnessA2 with
-  | none => rw [hr] at he; cases he
-  | some s =>
-    rw [hr] at he
-    simp only [Option.map_some, Option.some.injEq] at he
-    have hno : ∀ op ∈ witnessA2, ∀ m o c, op ≠ .read m true o c := by
-      intro op hop m o c
-      simp only [witnessA2, List.mem_cons, List.mem_nil_iff, or_false] at hop
-      rcases hop with h | h | h | h | h | h <;> subst h <;> simp
-    have := hst gId witnessA2 s witnessA2_consistent hno hr
-    rw [he] at this
-    exact not_pairwise_of_overlap (15, 30) (25, 30) [] 25 (by decide) this
-
-/-- exactly once, what holds: on every run in which (A1) unordered mode is entered only while no
-    buffered chunk starts below the read index and (A2) in unordered mode an empty frame arrives only
-    inside or right after already received data (e.g. a FIN-only frame after the last byte) — see
-    `Assembler.goodb` — all returned chunks, ordered and unordered, before and after the switch, are
-    pairwise disjoint -/
-theorem asm_exactly_once_partial (g : Nat → Nat) (ops : List Op) (s : Sys)
-    (hc : ∀ op ∈ ops, op.consistent g) (h : runG Sys.init ops = some s) :
+/-- exactly once: on every run — any interleaving of insert (including empty and FIN-only frames,
+    duplicates, overlaps, any order), ordered and unordered reads with any chunking, the switch from
+    ordered to unordered mode, clear — no offset is handed to the application twice: all returned
+    chunks, ordered and unordered, before and after the switch, are pairwise disjoint -/
+theorem asm_exactly_once (g : Nat → Nat) (ops : List Op) (s : Sys)
+    (hc : ∀ op ∈ ops, op.consistent g) (h : run Sys.init ops = some s) :
     (delivered s).Pairwise disj :=
-  (runG_inv g ops _ _ (invO_init g) invX_init hc h).2.px
+  (run_inv g ops _ _ (invO_init g) invX_init hc h).2.px
 
--- non-vacuity: out-of-order, overlapping frames; ordered reads, then the switch, then unordered reads
-example : (runG Sys.init
+/-- the application never obtains more bytes than the highest offset received, so the subtraction
+    `self.end - self.bytes_read` in `Assembler::insert` cannot underflow, and `insert` of a frame with
+    `len ≤ allocation_size`, `offset + len < 2^64` never panics (it did after a re-delivery, A1) -/
+theorem asm_insert_never_panics (g : Nat → Nat) (ops : List Op) (s : Sys)
+    (hc : ∀ op ∈ ops, op.consistent g) (h : run Sys.init ops = some s) :
+    s.a.bytesRead ≤ s.a.end_ ∧
+    ∀ (off : Nat) (bytes : Bytes) (alloc : Nat) (tm : Bool), bytes = stream g off bytes.length →
+      bytes.length ≤ alloc → off + bytes.length < 2^64 → (insert s.a off bytes alloc tm).2 ≠ .panic :=
+  ⟨bytesRead_le_end g ops s hc h,
+   fun off bytes alloc tm hb h1 h2 =>
+     insert_no_panic g s (run_inv g ops _ _ (invO_init g) invX_init hc h).1
+       (run_inv g ops _ _ (invO_init g) invX_init hc h).2 (bytesRead_le_end g ops s hc h)
+       off bytes alloc tm hb h1 h2⟩
+
+-- non-vacuity: out-of-order, overlapping frames; ordered reads, then the switch, then unordered reads,
+-- an empty frame in unordered mode far from received data, a late overlapping retransmission
+example : (run Sys.init
     [.insert 3 (stream gId 3 3) 3 false, .insert 0 (stream gId 0 4) 4 false,
-     .read 2 true (.chunk 0 2) [(2, 6)], .read 100 true (.chunk 2 2) [(4, 6)],
-     .insert 8 (stream gId 8 2) 40000 false, .read 1 false (.chunk 4 1) [],
-     .insert 4 (stream gId 4 6) 6 false, .read 100 false (.chunk 5 1) [],
-     .read 100 false (.chunk 6 2) [], .read 100 false (.chunk 8 2) [], .insert 10 [] 0 false,
-     .read 5 true (.chunk 10 1) []]).map (fun s => (s.out, delivered s, s.a.recvd))
-    = some ([0, 1, 2, 3], [(8, 10), (6, 8), (5, 6), (4, 5), (2, 4), (0, 2)], [(0, 10)]) := by decide
+     .read 2 true (.chunk 0 2), .read 100 true (.chunk 2 2),
+     .insert 8 (stream gId 8 2) 40000 false, .insert 1 (stream gId 1 2) 2 false, .read 1 false (.chunk 4 1),
+     .insert 20 [] 0 false, .insert 4 (stream gId 4 6) 6 false, .read 100 false (.chunk 5 1),
+     .read 100 false (.chunk 6 2), .read 100 false (.chunk 8 2), .insert 7 (stream gId 7 16) 16 false,
+     .read 100 false (.chunk 10 13),
+     .read 5 true (.chunk 23 1)]).map (fun s => (s.out, delivered s, s.a.recvd))
+    = some ([0, 1, 2, 3], [(10, 23), (8, 10), (6, 8), (5, 6), (4, 5), (2, 4), (0, 2)], [(0, 23)]) := by decide
+
+-- regression: the two call sequences that used to re-deliver data
+example : (run Sys.init formerA1).map delivered = some [(0, 10)] := formerA1_delivered
+example : (run Sys.init formerA2).map delivered = some [(15, 25), (25, 30)] := formerA2_delivered
 
 end receiver
 
